@@ -19,6 +19,8 @@ pub struct ScriptIo {
     pub sink: Arc<Mutex<Vec<u8>>>,
     /// `write` accepts at most this many bytes per call (short writes)
     pub write_limit: usize,
+    /// after this many more bytes every `write` fails (broken pipe)
+    pub write_fails_after: Option<usize>,
 }
 
 #[derive(Clone, Copy, Debug, PartialEq, Eq)]
@@ -45,6 +47,7 @@ impl ScriptIo {
             reads: Arc::new(Mutex::new(ReadLog::default())),
             sink: Arc::new(Mutex::new(Vec::new())),
             write_limit: usize::MAX,
+            write_fails_after: None,
         }
     }
     pub fn push_segments(&mut self, segs: Vec<Vec<u8>>) {
@@ -85,7 +88,14 @@ impl Read for ScriptIo {
 
 impl Write for ScriptIo {
     fn write(&mut self, buf: &[u8]) -> io::Result<usize> {
-        let n = buf.len().min(self.write_limit);
+        let mut n = buf.len().min(self.write_limit);
+        if let Some(rem) = self.write_fails_after {
+            if rem == 0 {
+                return Err(io::Error::new(io::ErrorKind::BrokenPipe, "injected write error"));
+            }
+            n = n.min(rem);
+            self.write_fails_after = Some(rem - n);
+        }
         self.sink.lock().unwrap().extend_from_slice(&buf[..n]);
         Ok(n)
     }
@@ -102,6 +112,30 @@ pub fn sync_conn() -> (Connection<ScriptIo>, Arc<Mutex<Vec<u8>>>) {
     let sink = io.sink.clone();
     let conn = Connection::connect(io).expect("harness greeting accepted");
     (conn, sink)
+}
+
+/// A send on one blocking connection fails (the transport breaks after `fail_after` bytes); then another
+/// connection, created afterwards on the same thread, sends `second`: the bytes that second transport receives.
+pub fn wire_after_failed_send(first: WireItem, fail_after: usize, second: WireItem) -> Result<Vec<u8>, String> {
+    let mut io = ScriptIo::new(vec![GREETING.to_vec()]);
+    io.write_fails_after = Some(fail_after);
+    let mut a = Connection::connect(io).map_err(|e| format!("{e:?}"))?;
+    let r = match first {
+        WireItem::Command(c) => a.send(c),
+        WireItem::List(l) => a.send_list(l),
+    };
+    if r.is_ok() {
+        return Err("the send over a broken transport succeeded".into());
+    }
+    drop(a);
+    let (mut b, sink) = sync_conn();
+    match second {
+        WireItem::Command(c) => b.send(c),
+        WireItem::List(l) => b.send_list(l),
+    }
+    .map_err(|e| format!("{e:?}"))?;
+    let v = sink.lock().unwrap().clone();
+    Ok(v)
 }
 
 /// Bytes `Connection::send` puts on the wire for one command.
